@@ -93,8 +93,8 @@ func init() {
 		QuickTimeoutS: 400, ThoroughTimeoutS: 2400, GoMaxProcs: []int{4, 16, 2}, Parallel: 16,
 		Level: "exploration", DesignRef: "DESIGN.md section 4, C12",
 		Technique: "runtime monitoring with schedule forcing: re-entrant nodes and the library's gated filter wired to the same Broker, a writer forced to be parked on the Broker lock (seen in a goroutine dump) before the callback re-enters, watchdog with blocked-state witness from goroutine dumps, probe calls afterwards",
-		LevelText: "Exploration by execution: every Broker operation that runs node code (Send->Process, Reopen->Reopen, RemoveNode/RemovePipelineAndNodes->Close) x a node that re-enters Send on the same Broker from that callback, x the library's gated.Filter with 0..3 pending groups flushing through the same Broker from Close (removed via RemovePipelineAndNodes and via RemovePipeline+RemoveNode) and from Process (expired groups), each with and without a concurrent RegisterNode that the harness first makes sure is parked on the Broker's lock; plus refused/failed calls of every kind. After each scenario a probe RegisterNode and a probe Send must return ('never permanently locked') and parked writers must get through. 'Bounded time' is restated as: returns before the watchdog unless the goroutine is provably parked forever (same parked state with library frames in two dumps) - only then a violation; otherwise inconclusive.",
+		LevelText: "Exploration by execution: every Broker operation that runs node code (Send->Process, Reopen->Reopen, RemoveNode/RemovePipelineAndNodes->Close) x a node that re-enters Send on the same Broker from that callback, x the library's gated.Filter with 0..3 pending groups flushing through the same Broker from Close (removed via RemovePipelineAndNodes and via RemovePipeline+RemoveNode) and from Process (expired groups), each with and without a concurrent writer (RegisterNode, or the threshold setters of the outer event type) that the harness first makes sure is parked on a lock; plus refused/failed calls of every kind. After each scenario a probe RegisterNode and a probe Send must return ('never permanently locked') and parked writers must get through. 'Bounded time' is restated as: returns before the watchdog unless the goroutine is provably parked forever (same parked state with library frames in two dumps) - only then a violation; otherwise inconclusive.",
 		LevelNote: "Trusted: goroutine dump parsing, watchdog 8 s. The interleaving 'writer queued between outer and inner read lock' is forced, not hoped for; other schedules are sampled by repetition and GOMAXPROCS variation.",
-		Rule:      "fixed scenario list (op x callback x writer x pending groups = 52 scenarios) repeated 2x (quick) / 40x (thorough) across GOMAXPROCS values; distinct = distinct scenario.",
+		Rule:      "fixed scenario list (op x callback x writer x pending groups = 52 scenarios + 20 with a threshold setter as the writer) repeated 4x (quick) / 60x (thorough) across GOMAXPROCS values; distinct = distinct scenario.",
 	})
 }
